@@ -29,6 +29,7 @@ const (
 	kFunc  // a function value (always monadic: its result is `R T`)
 	kMap   // map[string]T: an association list (Go.Map T); iteration order is never observed by translated code
 	kHeapPtr // *clients.client inside package clients: nil or an index into the heap of records (Go.Ptr)
+	kRegex // *regexp.Regexp compiled from a constant character-class pattern (Go.Regex)
 	kSock  // *os.File / *rsocks.rssock: a socket handle (Go.Sock; what is read and written goes through the environment)
 	kRef   // *clients.client seen from outside its package: an opaque record reference (Go.ClientRef snapshot or nil)
 	kOther
@@ -49,6 +50,9 @@ func (x *X) kindOf(t types.Type) kind {
 			return kPtrStruct
 		}
 		return kStruct
+	}
+	if t.String() == "*regexp.Regexp" {
+		return kRegex
 	}
 	if t.String() == "time.Time" {
 		return kInt // nanoseconds since the Unix epoch (monotonic reading ignored; trusted)
@@ -159,6 +163,8 @@ func (x *X) leanType(t types.Type, result bool) string {
 		return "(Option Go.ClientRef)"
 	case kSock:
 		return "Go.Sock"
+	case kRegex:
+		return "Go.Regex"
 	case kFunc:
 		sig := t.Underlying().(*types.Signature)
 		var parts []string
